@@ -23,10 +23,18 @@ def generate(rng, tier) -> dict:
     fold_p = rng.choice([0.1, 0.0333, 1.2345])
     long_obs = rng.random() < 0.3  # an hour instead of 100 s: tiny relative changes then still move bins
     eps = (2e-6, 5e-6, 9e-6) if long_obs else (1e-4, 3.3e-4, 7e-4)
+    harmonics = rng.random() < 0.12
+    if harmonics:
+        # a millisecond pulsar folded for an hour and re-tuned to HARMONICS of the period (2P, P/2, 3P/2): the drift
+        # across the observation is then tens of millions of bins - beyond 2^24, where float32 stops holding integers
+        fold_p, long_obs = rng.choice([0.0025, 0.001, 0.0016]), True
+        eps = (1.0, 0.5, 2.0)
     dms = [fold_dm, fold_dm + 0.5, fold_dm + 1.0, fold_dm - 0.75, fold_dm + 3.0, fold_dm + 7.25]
     if long_obs and fold_dm > 0:
         dms += [fold_dm * (1 + 4e-6), fold_dm * (1 - 8e-6)]
     ps = [fold_p, fold_p * (1 + eps[0]), fold_p * (1 - eps[0]), fold_p * (1 + eps[1]), fold_p * (1 - eps[2])]
+    if harmonics:
+        ps = [fold_p, fold_p * 2, fold_p * 0.5, fold_p * 1.5, fold_p * 3, fold_p * (1 + 2e-6)]
     mix = rng.choice(["dm", "period", "mixed"])
     ops = []
     for _ in range(rng.randint(1, 12 if tier == "quick" else 30)):
@@ -53,7 +61,7 @@ def generate(rng, tier) -> dict:
             ops.insert(j, {"k": "side_" + kind, "v": rng.choice([fold_dm, fold_dm, fold_dm + 1.0] if kind == "dm" else [fold_p, fold_p, ps[1]])})
     return {"nints": nints, "nbands": nbands, "nbins": nbins, "nchans_per_band": rng.choice([1, 2, 4]),
             "layout": rng.choice(["C", "C", "C", "T", "F", "slice", "C", "readonly"]), "header_dm": rng.choice([0.0, 0.0, 35.0, fold_dm]), "nsamples": 3600000 if long_obs else 100000,
-            "fold_dm": fold_dm, "fold_period": fold_p, "ops": ops, "data": rng.choice(["arange", "arange", "zero-sum"])}
+            "fold_dm": fold_dm, "fold_period": fold_p, "ops": ops, "data": rng.choice(["arange", "arange", "zero-sum"]), "harmonics": harmonics}
 
 
 def fixup(sc):
@@ -131,6 +139,11 @@ def check_implied_shift(sc, cube, rot, op, mk, ctx) -> None:
         dbins = (op["v"] / sc["fold_period"] - 1) * hdr.tobs * nbins / sc["fold_period"]
         drift = np.arange(nints, dtype=np.float64) * dbins / nints
         model = -drift[:, None] * np.ones((1, nbands))
+    if np.any(np.abs(model) > (1 << 20)):
+        # millions of bins: the library evaluates the drift in float32 (relative error 6e-8), so the absolute position is
+        # not fixed to within a bin by the statement; history independence (checked elsewhere) is what remains
+        ctx.probe("implied-shift-beyond-2^20-bins")
+        return
     diff = (rot - model) % nbins
     dist = np.minimum(diff, nbins - diff)
     if nbins >= 4 and np.any(dist > 1.0 + 1e-3):
